@@ -225,21 +225,26 @@ def run_session(spec, rec: Recorder):
     rk = online.root_key(rng, h, "DH")
     cache = dpapi_ng.KeyCache()
     online.load_into_cache(cache, rkid, rk)
+    # a second (and third) root key live in the same cache and are used alternately
+    others = [(uuid.UUID(int=rng.getrandbits(128)), online.root_key(rng, h, "DH")) for _ in range(2)]
+    for orkid, ork in others:
+        online.load_into_cache(cache, orkid, ork)
+    all_keys = {rkid: rk, **dict(others)}
     sids = [online.gen_sid(rng, n=k) for k in (1, 5, 15)]
     slots = [(rng.randrange(32), rng.randrange(32)) for _ in range(3)] + [(31, 31), (0, 0), (31, 0), (0, 31)]
-    made: t.List[t.Tuple[bytes, bytes, str]] = []
+    made: t.List[tuple] = []
     loop = asyncio.new_event_loop()
     asyncio.set_event_loop(loop)
     try:
         for i in range(spec["n"]):
             if made and i % 3 == 2:
-                blob, pt, sid = made[rng.randrange(len(made))]
+                blob, pt, sid, use_rkid = made[rng.randrange(len(made))]
                 b = blob if rng.random() < 0.5 else _blob.DPAPINGBlob.unpack(blob).pack(blob_in_envelope=False)
                 route = rng.choice(["same", "same", "fresh"])
                 c = cache
                 if route == "fresh":
                     c = dpapi_ng.KeyCache()
-                    online.load_into_cache(c, rkid, rk)
+                    online.load_into_cache(c, use_rkid, all_keys[use_rkid])
                 try:
                     with mon.NET.guard():
                         got = loop.run_until_complete(dpapi_ng.async_ncrypt_unprotect_secret(b, cache=c)) if i % 2 else dpapi_ng.ncrypt_unprotect_secret(b, cache=c)
@@ -257,19 +262,20 @@ def run_session(spec, rec: Recorder):
             ft = (l0 * 1024 + l1 * 32 + l2) * B + off
             sid = rng.choice(sids)
             pt = b"session-%d-" % i + rng.randbytes(rng.choice([0, 1, 16, 100]))
+            use_rkid = rng.choice([rkid, rkid] + [o[0] for o in others])
             try:
                 with mon.CLOCK.at_ns(mon.filetime_to_ns(ft, rng.randrange(100))), mon.NET.guard():
                     if i % 2:
-                        blob = loop.run_until_complete(dpapi_ng.async_ncrypt_protect_secret(pt, sid, root_key_identifier=rkid, cache=cache))
+                        blob = loop.run_until_complete(dpapi_ng.async_ncrypt_protect_secret(pt, sid, root_key_identifier=use_rkid, cache=cache))
                     else:
-                        blob = dpapi_ng.ncrypt_protect_secret(pt, sid, root_key_identifier=rkid, cache=cache)
+                        blob = dpapi_ng.ncrypt_protect_secret(pt, sid, root_key_identifier=use_rkid, cache=cache)
             except BaseException as e:
                 rec.violation("protect-raised", f"session op {i}: protect at {(l0, l1, l2)}+{off} raised {type(e).__name__}: {e}", {"shard": spec["name"], "op": i})
                 continue
             rec.count("session_protects")
-            made.append((blob, pt, sid))
+            made.append((blob, pt, sid, use_rkid))
             try:
-                parts = cms.reference_decrypt_parts(cms.parse(blob), {rkid: rk})
+                parts = cms.reference_decrypt_parts(cms.parse(blob), all_keys)
                 rec.count("reference_decrypts")
                 if parts["plaintext"] != pt:
                     rec.violation("reference-cannot-decrypt", f"session op {i}: the independent implementation does not recover the plaintext (blob names {(parts['kid']['l0'], parts['kid']['l1'], parts['kid']['l2'])}, clock in {(l0, l1, l2)})", {"shard": spec["name"], "op": i})
